@@ -27,6 +27,15 @@ def opC19 : List String → Option String
     match genOptimalTable freq.toList with
     | .clenOverflow => some s!"err {Gen.JERR_HUFF_CLEN_OVERFLOW}"
     | .ok t => some s!"ok bits {joinNat (t.bits.drop 1)} vals {joinNat t.vals}"
+  | "gencs" :: rest => do
+    -- `codesize[]` after the merge loop (read from the real function through the LJT_VERIF hook)
+    let ns ← nats? rest
+    let rec fill2 : List Nat → Array Nat → Array Nat
+      | s :: c :: r, a => fill2 r (a.setIfInBounds s c)
+      | _, a => a
+    let freq := fill2 ns (Array.replicate 257 0)
+    let cs := genCs freq.toList
+    if cs.any (· > 32) then some s!"err {Gen.JERR_HUFF_CLEN_OVERFLOW}" else some s!"cs {joinNat cs}"
   | "cderive" :: dc :: ll :: rest => do
     let t ← parseTbl rest
     match mkCDerived (dc = "1") (ll = "1") t with
